@@ -1201,6 +1201,81 @@ def gen_wrapper_src():
 GENERATORS["WrapperSrc.v"] = gen_wrapper_src
 
 
+def gen_cauchy_scalars():
+    """cauchy.get_cauchy_point: the scalar recurrences of the breakpoint loop (f', f'', the eps safeguard, delta_t_min), the break
+    test, and the tail after the loop (clamp of delta_t_min, t_old, the final update of c) by symbolic execution of the statements."""
+    L = ["(* GENERATED from /repo/lbfgsb/cauchy.py by harness/translate.py - do not edit *)",
+         "From Coq Require Import List Bool Floats.PrimFloat.", "From LBFGSB Require Import Model.FloatVec.", "Import ListNotations.", "",
+         "Definition pymax (a b : float) : float := if PrimFloat.ltb a b then b else a.",
+         "Definition pymin (a b : float) : float := if PrimFloat.ltb b a then b else a.", ""]
+    ct = ast.parse(_src("cauchy.py"))
+    fn = _func(ct, "get_cauchy_point")
+    eps = [st for st in fn.body if isinstance(st, ast.Assign) and ast.unparse(st.targets[0]) == "eps_f_sec"]
+    if len(eps) != 1 or ast.unparse(eps[0].value) != "np.finfo(float).eps":
+        raise TranslateError("eps_f_sec is not np.finfo(float).eps")
+    wh = [st for st in fn.body if isinstance(st, ast.While)]
+    if len(wh) != 1:
+        raise TranslateError("get_cauchy_point: expected one while loop")
+    ORACLES = {"W_b.dot(bmv(mats.invMfactors, c))": "wMc", "W_b.dot(bmv(mats.invMfactors, 2 * p + g_b * W_b))": "wMv"}
+
+    class FE(FloatExpr):
+        def tr(self, n):
+            u = ast.unparse(n)
+            if u in ORACLES:
+                return ORACLES[u]
+            if u == "mats.theta":
+                return "theta"
+            return super().tr(n)
+    env = {"delta_t": "dt", "f_prime": "fp", "f_second": "fs", "g_b": "gb", "zb": "zb", "eps_f_sec": "0x1p-52%float", "f2_org": "f2_org",
+           "delta_t_min": "dtm", "t_cur": "t_cur", "t_old": "t_old"}
+    # --- the break test
+    brk = [st for st in wh[0].body if isinstance(st, ast.If) and any(isinstance(b_, ast.Break) for b_ in st.body)]
+    if len(brk) != 1:
+        raise TranslateError("get_cauchy_point: break test not found")
+    L.append(f"Definition cauchy_break (dtm dt : float) : bool := {FE(env).cond(brk[0].test)}.")
+    # --- scalar statements of the loop body, in order
+    def run(stmts, env, cond=None):
+        for st in stmts:
+            if isinstance(st, ast.AugAssign) and isinstance(st.target, ast.Name) and st.target.id in ("f_prime", "f_second"):
+                op = {ast.Add: "add", ast.Sub: "sub"}.get(type(st.op))
+                if op is None:
+                    raise TranslateError("unsupported augmented assignment " + ast.unparse(st))
+                new_ = f"(PrimFloat.{op} {env[st.target.id]} {FE(env).tr(st.value)})"
+                env[st.target.id] = new_ if cond is None else f"(if {cond} then {new_} else {env[st.target.id]})"
+            elif isinstance(st, ast.Assign) and len(st.targets) == 1 and isinstance(st.targets[0], ast.Name) and st.targets[0].id in ("f_second", "delta_t_min"):
+                if cond is not None:
+                    raise TranslateError("conditional plain assignment " + ast.unparse(st))
+                env[st.targets[0].id] = FE(env).tr(st.value)
+            elif isinstance(st, ast.If) and ast.unparse(st.test) == "mats.use_factor" and not st.orelse and cond is None:
+                run(st.body, env, "use_factor")
+            elif isinstance(st, (ast.AugAssign, ast.Assign)) and any(isinstance(n_, ast.Name) and n_.id in ("f_prime", "f_second", "delta_t_min") and isinstance(n_.ctx, ast.Store) for n_ in ast.walk(st)):
+                raise TranslateError("unrecognised statement on the scalar state: " + ast.unparse(st))
+    e1 = dict(env)
+    run(wh[0].body, e1)
+    L.append("(* one pass of the loop on the scalars: (f_prime, f_second, delta_t_min) after the pass; wMc, wMv are the two BLAS answers *)")
+    L.append("Definition cauchy_scalar_step (theta f2_org dt gb zb fp fs wMc wMv : float) (use_factor : bool) : float * float * float :=\n"
+             f"  let fp1 := {e1['f_prime']} in\n  let fs1 := {e1['f_second']} in\n  (fp1, fs1, {e1['delta_t_min'].replace(e1['f_prime'], 'fp1').replace(e1['f_second'], 'fs1')}).")
+    # --- the tail after the loop
+    i0 = fn.body.index(wh[0])
+    tail = fn.body[i0 + 1:]
+    cl = [st for st in tail if isinstance(st, ast.Assign) and ast.unparse(st.targets[0]) == "delta_t_min"]
+    if len(cl) != 1 or not isinstance(cl[0].value, ast.IfExp):
+        raise TranslateError("get_cauchy_point: clamp of delta_t_min not found")
+    ife = cl[0].value
+    clamp = f"(if {FE(env).cond(ife.test)} then {FE(env).tr(ife.body)} else {FE(env).tr(ife.orelse)})"
+    order = [ast.unparse(st) for st in tail if isinstance(st, (ast.Assign, ast.AugAssign)) and not ast.unparse(st).startswith(("is_moving", "x_cp["))]
+    if order != ["delta_t_min = 0 if delta_t_min < 0 else delta_t_min", "t_old += delta_t_min", "c += delta_t_min * p"]:
+        raise TranslateError("get_cauchy_point: unexpected tail " + " | ".join(order))
+    L.append("(* after the loop: delta_t_min is clamped at 0 FIRST; t_old and the last update of c both use the clamped value *)")
+    L.append(f"Definition cauchy_clamp (dtm : float) : float := {clamp}.")
+    L.append("(* (t_old after `t_old += delta_t_min`, the factor of p in the last `c += delta_t_min * p`) *)")
+    L.append("Definition cauchy_tail (dtm t_old : float) : float * float :=\n  let dtm1 := cauchy_clamp dtm in (PrimFloat.add t_old dtm1, dtm1).")
+    return "\n".join(L) + "\n"
+
+
+GENERATORS["CauchyScalars.v"] = gen_cauchy_scalars
+
+
 def generate():
     """Write the generated files. Returns a list of error strings (empty = ok)."""
     os.makedirs(OUT, exist_ok=True)
